@@ -317,7 +317,7 @@ func runQueueCheck(ctx *core.Ctx, pool *par.Pool, id string) {
 	}
 	quick := ctx.Quick()
 	cfgs := []QCfgSpec{{File: "C", Buffer: 5}, {File: "A", Buffer: 6}}
-	depth := 5
+	depth := 6
 	ctx.SetBudget(110 * time.Second)
 	if !quick {
 		cfgs = []QCfgSpec{{File: "C", Buffer: 5}, {File: "A", Buffer: 6}, {File: "E", Buffer: 5}, {File: "D", Buffer: 5}}
